@@ -22,6 +22,14 @@
 using namespace vh;
 using QXmpp::SendResult;
 
+// Access to two private counters of StreamAckManager (only used by the 2^32 wrap probe): explicit template
+// instantiation may name private members, so nothing in /repo is patched.
+template<typename Tag, typename Tag::type M> struct PrivAccess { friend typename Tag::type get(Tag) { return M; } };
+struct TagLastOut { typedef unsigned int QXmpp::Private::StreamAckManager::*type; friend type get(TagLastOut); };
+struct TagLastIn { typedef unsigned int QXmpp::Private::StreamAckManager::*type; friend type get(TagLastIn); };
+template struct PrivAccess<TagLastOut, &QXmpp::Private::StreamAckManager::m_lastOutgoingSequenceNumber>;
+template struct PrivAccess<TagLastIn, &QXmpp::Private::StreamAckManager::m_lastIncomingSequenceNumber>;
+
 // ------------------------------------------------------------------ fake transport under the real XmppSocket
 class FakeSock : public QSslSocket
 {
@@ -66,6 +74,9 @@ static const char *NS_SM = "urn:xmpp:sm:3";
 
 struct Docs {
     QDomDocument featSm = parseDoc("<stream:features xmlns:stream='http://etherx.jabber.org/streams'><bind xmlns='urn:ietf:params:xml:ns:xmpp-bind'/><sm xmlns='urn:xmpp:sm:3'/></stream:features>");
+    QDomDocument featSasl2 = parseDoc("<stream:features xmlns:stream='http://etherx.jabber.org/streams'><authentication xmlns='urn:xmpp:sasl:2'><mechanism>PLAIN</mechanism><inline><bind xmlns='urn:xmpp:bind:0'><inline><feature var='urn:xmpp:sm:3'/></inline></bind><sm xmlns='urn:xmpp:sm:3'/></inline></authentication></stream:features>");
+    QDomDocument featSasl2NoSm = parseDoc("<stream:features xmlns:stream='http://etherx.jabber.org/streams'><authentication xmlns='urn:xmpp:sasl:2'><mechanism>PLAIN</mechanism><inline><bind xmlns='urn:xmpp:bind:0'/></inline></authentication></stream:features>");
+    QDomDocument featEmpty = parseDoc("<stream:features xmlns:stream='http://etherx.jabber.org/streams'/>");
     QDomDocument featNoSm = parseDoc("<stream:features xmlns:stream='http://etherx.jabber.org/streams'><bind xmlns='urn:ietf:params:xml:ns:xmpp-bind'/></stream:features>");
     QDomDocument r = parseDoc("<r xmlns='urn:xmpp:sm:3'/>");
     QDomDocument failed = parseDoc("<failed xmlns='urn:xmpp:sm:3'><item-not-found xmlns='urn:ietf:params:xml:ns:xmpp-stanzas'/></failed>");
@@ -90,10 +101,19 @@ struct Docs {
 static Docs *docs;
 
 enum Policy { PolE, PolR, PolN, PolF };  // server: refuse resume+accept enable | accept resume (else enable) | no SM offered | refuse both
-enum HMode { HExact, HStale, HBeyond };
+enum HMode { HExact, HStale, HBeyond, HNone };
+struct Rc {              // one reconnect scenario
+    Policy pol = PolE;
+    HMode hm = HExact;   // h of <resumed/>
+    bool forceDown = false;
+    bool sasl2 = false;  // SASL2 with inline <resume/> / Bind2 inline <enable/> instead of the classic post-authentication negotiation
+    bool reent = false;  // delivery reports fired while <resumed/> is processed send one new stanza each
+    HMode failedH = HNone;  // h attribute of <failed/> answering <resume/> (XEP-0198 5.: the server's handled count)
+};
 
 struct Pkt {
     bool stanza = false;
+    bool nested = false;  // sent from inside a delivery report
     bool iq = false;  // tracked request sent with sendIq(): its delivery report is consumed by the IQ manager, not observable
     int reports = 0;
     long seq = 0;  // oracle's own numbering (0 = never stored)
@@ -106,8 +126,10 @@ struct Env {
     FakeSock *fs = nullptr;
     std::vector<std::string> ev;  // events of the current op (wire tokens, reports, w0/w1) in real-time order
     std::vector<int> wirePkts;    // packet labels written during the current op
-    enum Req { None, Resume, Bind, Enable } lastReq = None;
+    enum Req { None, Resume, Bind, Enable, Sasl2Auth } lastReq = None;
     QByteArray bindId;
+    bool authHasResume = false, authHasEnable = false;
+    std::function<void()> onSmEnabledLog;  // boundary inside one injected <success/>: "Stream management enabled" is logged first thing in onEnabled
     bool connected = false;
     bool tearing = false;
     // ---- oracle bookkeeping (independent of the Lean model)
@@ -117,13 +139,20 @@ struct Env {
     long recvOn = 0, strayLegit = 0, strayPhantom = 0;  // stanzas injected since the last <enabled/>
     bool inAckOp = false;
     long curH = 0;
+    bool reentArmed = false;       // the current op fires reports whose continuation sends a stanza
+    std::vector<int> nestedNow;    // packets sent from inside reports during the current op
+    std::vector<int> coveredByFailed;  // pending packets the server declared handled in <failed h/>
+    // what an honest server has counted on the current session (independent of the client's numbering)
+    bool srvOn = false, srvValid = false, dirty = false;
+    long srvCount = 0, srvCountAtLoss = 0, srvLastAck = 0;
     std::vector<int> outstanding;  // tracked IQ requests whose IqResult task has not finished, oldest first
     std::string history;
     std::string trace;  // op => observation, for the evidence samples
+    bool mute = false;  // wrap probe: nothing is sent to the model driver (the model's counters are unbounded)
 
     QXmpp::Private::StreamAckManager &sam() { return c->streamAckManager(); }
 
-    Env()
+    explicit Env(bool muted = false) : mute(muted)
     {
         c = new QXmppOutgoingClient(nullptr);
         fs = new FakeSock;
@@ -134,7 +163,14 @@ struct Env {
         QObject::connect(c, &QXmppOutgoingClient::elementReceived, ctx.get(), [](const QDomElement &e, bool &handled) {
             if (e.namespaceURI() == QStringLiteral("urn:verif:nonza")) handled = true;
         });
-        reconnectScript(PolN, HExact, false, false);  // initial connection: session without stream management
+        QObject::connect(c, &QXmppLoggable::logMessage, ctx.get(), [this](QXmppLogger::MessageType, const QString &t) {
+            if (onSmEnabledLog && t.contains(QStringLiteral("Stream management enabled"))) { auto f = std::move(onSmEnabledLog); onSmEnabledLog = nullptr; f(); }
+        });
+        c->configuration().setJid(QStringLiteral("u@example.org"));
+        c->configuration().setPassword(QStringLiteral("pw"));
+        c->configuration().setDisabledSaslMechanisms({});
+        Rc init; init.pol = PolN;
+        reconnectScript(init, false);  // initial connection: session without stream management
         ev.clear();
         wirePkts.clear();
     }
@@ -145,6 +181,7 @@ struct Env {
         delete c;  // ~QXmppOutgoingClient -> resetCache(): every pending packet gets its (single) report
         for (size_t i = 0; i < pk.size(); i++) {
             if (pk[i].iq) continue;
+            if (!pk[i].task) continue;
             if (pk[i].reports != 1) oracleFail(pk[i].reports == 0 ? "C09:report:lost" : "C09:report:twice", history + " [teardown P" + std::to_string(i) + "]");
             else oraclePass()++;
         }
@@ -168,6 +205,7 @@ struct Env {
             int id = atoi(attr(d, "id").c_str() + 1);
             ev.push_back("P" + std::to_string(id));
             wirePkts.push_back(id);
+            if (srvOn && !d.startsWith("<nz")) srvCount++;  // the server counts every stanza it receives on the session
             if (id >= 0 && id < (int)pk.size() && pk[id].reports > 0) oracleFail("C09:resend:after-report", history);
             return;
         }
@@ -175,6 +213,14 @@ struct Env {
         if (d.startsWith("<a xmlns=")) { long k = atol(attr(d, "h").c_str()); ev.push_back("a" + std::to_string(k)); checkH(k, "a"); return; }
         if (d.startsWith("<resume ")) { long k = atol(attr(d, "h").c_str()); ev.push_back("resume" + std::to_string(k)); checkH(k, "resume"); lastReq = Resume; return; }
         if (d.startsWith("<enable ")) { lastReq = Enable; return; }
+        if (d.startsWith("<authenticate ")) {
+            int i = d.indexOf("<resume ");
+            authHasResume = i >= 0;
+            authHasEnable = d.contains("<enable ");
+            if (authHasResume) { long k = atol(attr(d.mid(i), "h").c_str()); ev.push_back("resume" + std::to_string(k)); checkH(k, "resume"); }
+            lastReq = Sasl2Auth;
+            return;
+        }
         if (d.startsWith("<iq ") && d.contains("xmpp-bind")) { bindId = QByteArray::fromStdString(attr(d, "id")); lastReq = Bind; return; }
         ev.push_back("?" + hex((const unsigned char *)d.constData(), std::min<size_t>(d.size(), 16)));
     }
@@ -183,8 +229,9 @@ struct Env {
     // i.e. while stream management was on since the last <enabled/> (recvOn). Judged on the implementation alone.
     void checkH(long k, const char *what)
     {
-        if (k == recvOn) { oraclePass()++; return; }
-        if (k == recvOn + strayLegit + strayPhantom) {
+        const long M = 4294967296L;  // XEP-0198 counts modulo 2^32
+        if (k == recvOn % M) { oraclePass()++; return; }
+        if (k == (recvOn + strayLegit + strayPhantom) % M) {
             // the counter also ran while stream management was off
             if (strayLegit > 0) oracleFail("C09:h:counts-stanzas-received-without-sm", history);  // legitimate history: session without SM
             else oraclePass()++;  // only stanzas injected with no connection at all: not a legitimate input, not judged
@@ -211,6 +258,36 @@ struct Env {
             else oraclePass()++;
         }
         pend.erase(std::remove(pend.begin(), pend.end(), id), pend.end());
+        // a client whose delivery-report continuation sends the next stanza (depth one: nested packets do not nest again)
+        if (acked && reentArmed && !pk[id].nested && !tearing) nestedSend();
+    }
+    void nestedSend()
+    {
+        int id = (int)pk.size();
+        bool en = sam().enabled();
+        QByteArray data = "<message id='P" + QByteArray::number(id) + "'/>";
+        pk.push_back(Pkt { true, true, false, 0, 0, std::nullopt });
+        if (en) { pend.push_back(id); pk[id].seq = ++myLastOut; }
+        nestedNow.push_back(id);
+        stat(en ? "nested_send_numbered" : "nested_send_unnumbered");
+        auto res = sam().internalSend(QXmppPacket(data, true));
+        pk[id].task.emplace(std::get<1>(res));
+        pk[id].task->then(ctx.get(), [this, id](SendResult &&r) { onReport(id, r); });
+        ev.push_back(std::get<0>(res) ? "w1" : "w0");
+    }
+    // ids whose delivery report has an observable continuation (not tracked IQs, not nested packets), for the op line
+    std::string armedList() const
+    {
+        std::string l;
+        for (int id : pend) if (!pk[id].iq && !pk[id].nested) l += (l.empty() ? "" : ".") + std::to_string(id);
+        return l.empty() ? "-" : l;
+    }
+    // honest-server view: after every operation whose writes all succeeded the client's numbering equals the server's count
+    void checkServerCount()
+    {
+        if (!srvOn || !srvValid || dirty || !connected) return;
+        if (srvCount != myLastOut) { oracleFail("C09:numbering:server-count-diverges", history); srvValid = false; }
+        else oraclePass()++;
     }
 
     std::string flushObs()
@@ -220,19 +297,13 @@ struct Env {
         if (e.empty()) e = "-";
         ev.clear();
         wirePkts.clear();
+        nestedNow.clear();
         // a second reportFinished() after the continuation ran would leave a stored result behind
         for (size_t i = 0; i < pk.size(); i++)
-            if (pk[i].reports > 0 && pk[i].task->hasResult()) oracleFail("C09:report:twice", history + " [second finish on P" + std::to_string(i) + "]");
+            if (pk[i].reports > 0 && pk[i].task && pk[i].task->hasResult()) oracleFail("C09:report:twice", history + " [second finish on P" + std::to_string(i) + "]");
         return e + "|e" + (sam().enabled() ? "1" : "0") + " i" + std::to_string(sam().lastIncomingSequenceNumber());
     }
-    void line(const std::string &op)
-    {
-        history += op + ";";
-        stat("op_" + op.substr(0, op.find(' ')));
-        std::string o = flushObs();
-        if (trace.size() < 560) trace += op + " => " + o + " ; ";
-        corr(op, o);
-    }
+    void line(const std::string &op) { lineObs(op, flushObs()); }
     void inject(const QDomDocument &d) { TestClient::received(c, d.documentElement()); }
     long resolveH(HMode m) const { return m == HExact ? myLastOut : m == HStale ? (myLastOut > 0 ? myLastOut - 1 : 0) : myLastOut + 1; }
     const char *ud(bool forceDown) const { return connected && !forceDown ? "u" : "d"; }
@@ -246,8 +317,8 @@ struct Env {
         int id = (int)pk.size();
         bool en = sam().enabled();
         QByteArray data = (stanza ? "<message id='P" : "<nz id='P") + QByteArray::number(id) + "'/>";
-        pk.push_back(Pkt { stanza, false, 0, 0, std::nullopt });
-        if (en && stanza) { pend.push_back(id); pk[id].seq = ++myLastOut; }
+        pk.push_back(Pkt { stanza, false, false, 0, 0, std::nullopt });
+        if (en && stanza) { pend.push_back(id); pk[id].seq = ++myLastOut; if (!(connected && !forceDown)) dirty = true; }
         auto res = sam().internalSend(QXmppPacket(data, stanza));
         pk[id].task.emplace(std::get<1>(res));
         pk[id].task->then(ctx.get(), [this, id](SendResult &&r) { onReport(id, r); });
@@ -256,6 +327,7 @@ struct Env {
         // without stream management (or for a nonza) the report is immediate; with it, it must wait for the server
         if ((en && stanza) ? pk[id].reports != 0 : pk[id].reports != 1) oracleFail(en && stanza ? "C09:report:premature" : "C09:report:missing-immediate", history);
         else oraclePass()++;
+        checkServerCount();
         line(op);
     }
     // a tracked request through the public API (QXmppClient::sendIq -> QXmppOutgoingClient::sendIq -> OutgoingIqManager)
@@ -266,8 +338,8 @@ struct Env {
         if (forceDown && connected) fs->down();
         int id = (int)pk.size();
         bool en = sam().enabled();
-        pk.push_back(Pkt { true, true, 0, 0, std::nullopt });
-        if (en) { pend.push_back(id); pk[id].seq = ++myLastOut; }
+        pk.push_back(Pkt { true, false, true, 0, 0, std::nullopt });
+        if (en) { pend.push_back(id); pk[id].seq = ++myLastOut; if (!(connected && !forceDown)) dirty = true; }
         QXmppIq iq(QXmppIq::Get);
         iq.setId(QStringLiteral("P") + QString::number(id));
         iq.setTo(QStringLiteral("srv.example"));
@@ -276,6 +348,7 @@ struct Env {
             outstanding.erase(std::remove(outstanding.begin(), outstanding.end(), id), outstanding.end());
         });
         if (forceDown && connected) fs->up();
+        checkServerCount();
         line(op);
     }
     // an IQ response arriving like any other traffic (handlePacketReceived -> handleElement): it is a stanza of the session
@@ -309,17 +382,24 @@ struct Env {
         pend.erase(std::remove_if(pend.begin(), pend.end(), [&](int id) { return pk[id].iq && pk[id].seq <= h; }), pend.end());
         oraclePass()++;
     }
-    void ack(HMode m)
+    void ack(HMode m, bool reent = false)
     {
         long h = resolveH(m);
-        history += "{ack " + std::to_string(h) + "}";
+        std::string op = "ack " + std::to_string(h);
+        if (reent) op += " r" + armedList() + " " + ud(false);
+        history += "{" + op + "}";
         bool en = sam().enabled();
-        inAckOp = en; curH = h;
+        if (en && srvOn) { if (h > srvCount || h < srvLastAck) srvValid = false; else srvLastAck = h; }
+        inAckOp = en; curH = h; reentArmed = reent;
         inject(docs->ack(h));
-        inAckOp = false;
+        inAckOp = false; reentArmed = false;
         if (en) afterAck(h);
+        // a stanza sent from a report while <a/> is processed is newer traffic: numbered after everything stored
+        for (int id : nestedNow) if (pk[id].seq == 0 && en) oracleFail("C09:reentrant-send:not-numbered", history);
+        checkServerCount();
         stat(m == HExact ? "ack_exact" : m == HStale ? "ack_stale" : "ack_beyond");
-        line("ack " + std::to_string(h));
+        if (reent) stat("ack_reentrant");
+        line(op);
     }
     void req(bool forceDown)
     {
@@ -343,32 +423,122 @@ struct Env {
     {
         fs->down();
         connected = false;
+        if (srvOn) { srvOn = false; srvCountAtLoss = srvCount; }
         TestClient::socketDisconnected(c);
         line("closed");
     }
     void resetCache()
     {
         sam().resetCache();
+        srvValid = false;  // what was dropped can no longer be retransmitted: the two counts are not comparable afterwards
         pend.erase(std::remove_if(pend.begin(), pend.end(), [&](int id) { return pk[id].iq; }), pend.end());
         if (!pend.empty()) oracleFail("C09:report:lost", history); else oraclePass()++;
         line("clearCache");
     }
+    // what the op must put on the wire: the stored packets to transmit again, in order, then newer traffic (stanzas the
+    // delivery reports of this op sent)
     void checkResend(const std::vector<int> &expected, bool up)
     {
         std::vector<int> want = up ? expected : std::vector<int> {};
-        if (wirePkts != want) oracleFail("C09:resend:wrong-set-or-order", history);
-        else oraclePass()++;
+        std::vector<int> good = want, newerFirst;
+        if (up) {
+            good.insert(good.end(), nestedNow.begin(), nestedNow.end());
+            newerFirst = nestedNow;
+            newerFirst.insert(newerFirst.end(), want.begin(), want.end());
+        }
+        if (wirePkts == good) oraclePass()++;
+        else if (!nestedNow.empty() && wirePkts == newerFirst) oracleFail("C09:resend:newer-traffic-before-resent", history);
+        else oracleFail("C09:resend:wrong-set-or-order", history);
         if (!want.empty()) stat("resends_nonempty");
     }
+    void lineObs(const std::string &op, const std::string &o)
+    {
+        history += op + ";";
+        stat("op_" + op.substr(0, op.find(' ')));
+        if (trace.size() < 560) trace += op + " => " + o + " ; ";
+        if (!mute) corr(op, o);
+    }
+
+    // ---- <resumed h/> (classic: own element; SASL2: inside <success/>)
+    struct ResumedCtx { long h; std::vector<int> expected; std::string armed; };
+    ResumedCtx preResumed(const Rc &rc)
+    {
+        ResumedCtx x;
+        x.h = resolveH(rc.hm);
+        history += "{resumed " + std::to_string(x.h) + "}";
+        for (int id : pend) if (pk[id].seq > x.h) x.expected.push_back(id);
+        x.armed = armedList();
+        // an honest server reports what it received before the connection dropped (possibly less than was written)
+        if (srvValid && !(x.h <= srvCountAtLoss && x.h >= srvLastAck)) srvValid = false;
+        srvOn = true; srvCount = x.h; srvLastAck = x.h;
+        dirty = rc.forceDown;
+        if (rc.forceDown) fs->down();
+        inAckOp = true; curH = x.h; reentArmed = rc.reent;
+        return x;
+    }
+    void postResumed(const Rc &rc, const ResumedCtx &x)
+    {
+        inAckOp = false; reentArmed = false;
+        if (rc.forceDown) fs->up();
+        afterAck(x.h);
+        checkResend(x.expected, !rc.forceDown);
+        // the session is resumed: a stanza sent from a report is traffic of that session and must be numbered
+        for (int id : nestedNow) if (pk[id].seq == 0) { oracleFail("C09:reentrant-send:not-numbered", history); break; }
+        checkServerCount();
+        stat(rc.hm == HExact ? "resumed_exact" : rc.hm == HStale ? "resumed_stale" : "resumed_beyond");
+        if (rc.reent) stat("resumed_reentrant");
+        if (rc.sasl2) stat("resumed_inline_sasl2");
+        line("resumed " + std::to_string(x.h) + (rc.reent ? " r" + x.armed : "") + " " + ud(rc.forceDown));
+    }
+    // ---- <failed [h]/> answering <resume/>
+    QByteArray failedXml(const Rc &rc, std::string &opOut)
+    {
+        if (rc.failedH == HNone) { opOut = "resumeFailed -"; return "<failed xmlns='urn:xmpp:sm:3'><item-not-found xmlns='urn:ietf:params:xml:ns:xmpp-stanzas'/></failed>"; }
+        long h = resolveH(rc.failedH);
+        opOut = "resumeFailed " + std::to_string(h);
+        // XEP-0198: the server tells how many stanzas of the dead session it handled: those are covered
+        coveredByFailed.clear();
+        for (int id : pend) if (pk[id].seq > 0 && pk[id].seq <= h) coveredByFailed.push_back(id);
+        inAckOp = true; curH = h;
+        stat("failed_with_h");
+        return "<failed xmlns='urn:xmpp:sm:3' h='" + QByteArray::number(qlonglong(h)) + "'><item-not-found xmlns='urn:ietf:params:xml:ns:xmpp-stanzas'/></failed>";
+    }
+    // ---- <enabled/> (classic: own element; Bind2: inside <bound/>)
+    std::vector<int> preEnabled(const Rc &rc)
+    {
+        history += "{enabledNew}";
+        std::vector<int> expected = pend;
+        srvOn = true; srvValid = true; srvCount = 0; srvLastAck = 0;
+        dirty = rc.forceDown;
+        return expected;
+    }
+    void postEnabled(const Rc &rc, const std::vector<int> &expected)
+    {
+        // fresh numbering 1..n in the original order
+        myLastOut = 0;
+        for (int id : pend) pk[id].seq = ++myLastOut;
+        recvOn = strayLegit = strayPhantom = 0;
+        bool resentCovered = false;
+        for (int id : coveredByFailed) if (std::find(wirePkts.begin(), wirePkts.end(), id) != wirePkts.end()) resentCovered = true;
+        coveredByFailed.clear();
+        checkResend(expected, !rc.forceDown);
+        // "covered ones are never resent": what <failed h/> declared handled must not be transmitted again on the new session
+        if (resentCovered) oracleFail("C09:resend:covered-by-failed-h", history); else oraclePass()++;
+        checkServerCount();
+        if (rc.sasl2) stat("enabled_inline_bind2");
+        line(std::string("enabledNew ") + ud(rc.forceDown));
+    }
+
     // a new connection; the scripted server reacts to what the client writes
-    void reconnectScript(Policy pol, HMode hm, bool forceDown, bool doEmit = true)
+    void reconnectScript(const Rc &rc, bool doEmit = true)
     {
         if (connected) closed();
         fs->up();
         connected = true;
         TestClient::handleStart(c);
         lastReq = None;
-        inject(pol == PolN ? docs->featNoSm : docs->featSm);
+        if (rc.sasl2) inject(rc.pol == PolN ? docs->featSasl2NoSm : docs->featSasl2);
+        else inject(rc.pol == PolN ? docs->featNoSm : docs->featSm);
         for (int guard = 0; guard < 8; guard++) {
             Req rq = lastReq;
             lastReq = None;
@@ -377,38 +547,65 @@ struct Env {
                 inject(parseDoc("<iq xmlns='jabber:client' type='result' id='" + bindId + "'><bind xmlns='urn:ietf:params:xml:ns:xmpp-bind'><jid>u@example.org/r</jid></bind></iq>"));
             } else if (rq == Resume) {
                 if (doEmit) line("resumeReq u");
-                if (pol == PolR) {
-                    long h = resolveH(hm);
-                    history += "{resumed " + std::to_string(h) + "}";
-                    std::vector<int> expected;
-                    for (int id : pend) if (pk[id].seq > h) expected.push_back(id);
-                    if (forceDown) fs->down();
-                    inAckOp = true; curH = h;
-                    inject(docs->resumed(h));
-                    inAckOp = false;
-                    if (forceDown) fs->up();
-                    afterAck(h);
-                    checkResend(expected, !forceDown);
-                    stat(hm == HExact ? "resumed_exact" : hm == HStale ? "resumed_stale" : "resumed_beyond");
-                    line("resumed " + std::to_string(h) + " " + ud(forceDown));
+                if (rc.pol == PolR) {
+                    auto x = preResumed(rc);
+                    inject(docs->resumed(x.h));
+                    postResumed(rc, x);
                 } else {
-                    inject(docs->failed);
+                    std::string op;
+                    QByteArray f = failedXml(rc, op);
+                    inject(parseDoc(f));
+                    inAckOp = false;
+                    line(op);
                 }
             } else if (rq == Enable) {
-                if (pol == PolF) {
+                if (rc.pol == PolF) {
                     inject(docs->failed);
                 } else {
-                    history += "{enabledNew}";
-                    std::vector<int> expected = pend;
-                    if (forceDown) fs->down();
+                    auto expected = preEnabled(rc);
+                    if (rc.forceDown) fs->down();
                     inject(parseDoc("<enabled xmlns='urn:xmpp:sm:3' resume='true' id='sess'/>"));
-                    if (forceDown) fs->up();
-                    // fresh numbering 1..n in the original order
-                    myLastOut = 0;
-                    for (int id : pend) pk[id].seq = ++myLastOut;
-                    recvOn = strayLegit = strayPhantom = 0;
-                    checkResend(expected, !forceDown);
-                    line(std::string("enabledNew ") + ud(forceDown));
+                    if (rc.forceDown) fs->up();
+                    postEnabled(rc, expected);
+                }
+            } else if (rq == Sasl2Auth) {
+                // SASL2: <resume/> travels inside <authenticate/>, Bind2 carries <enable/>; the answers come inside <success/>
+                bool hasResume = authHasResume, hasEnable = authHasEnable;
+                if (hasResume && doEmit) line("resumeReq u");
+                QByteArray x = "<success xmlns='urn:xmpp:sasl:2'><authorization-identifier>u@example.org/r</authorization-identifier>";
+                if (rc.pol == PolR && hasResume) {
+                    auto r = preResumed(rc);
+                    inject(parseDoc(x + "<resumed xmlns='urn:xmpp:sm:3' previd='sess' h='" + QByteArray::number(qlonglong(r.h)) + "'/></success>"));
+                    postResumed(rc, r);
+                } else {
+                    std::string failedOp, failedObs;
+                    bool enabledPart = hasEnable && rc.pol != PolF;
+                    if (hasResume) x += failedXml(rc, failedOp);
+                    x += "<bound xmlns='urn:xmpp:bind:0'>";
+                    if (hasEnable) x += rc.pol == PolF ? QByteArray("<failed xmlns='urn:xmpp:sm:3'/>") : QByteArray("<enabled xmlns='urn:xmpp:sm:3' resume='true' id='sess'/>");
+                    x += "</bound></success>";
+                    std::vector<int> expected;
+                    if (enabledPart) {
+                        // both answers are processed inside one call: split the observation where onEnabled() starts
+                        onSmEnabledLog = [&, this]() {
+                            inAckOp = false;
+                            failedObs = flushObs();
+                            expected = preEnabled(rc);
+                            if (rc.forceDown) fs->down();
+                        };
+                    }
+                    inject(parseDoc(x));
+                    if (enabledPart && onSmEnabledLog) { fprintf(stderr, "harness: <enabled/> inside <bound/> was not processed\n"); exit(3); }
+                    if (enabledPart) {
+                        if (rc.forceDown) fs->up();
+                        if (hasResume) lineObs(failedOp, failedObs);
+                        else if (failedObs.substr(0, 2) != "-|") lineObs("unexpected-output", failedObs);
+                        postEnabled(rc, expected);
+                    } else {
+                        inAckOp = false;
+                        if (hasResume) line(failedOp);
+                    }
+                    inject(docs->featEmpty);  // the features of the authenticated stream: nothing left to negotiate
                 }
             }
         }
@@ -434,19 +631,96 @@ struct Env {
         else if (sym == "Id") sendIq(true);
         else if (sym == "Jr") recvIqResponse('r');
         else if (sym == "Je") recvIqResponse('e');
+        else if (sym == "a=r") ack(HExact, true);
+        else if (sym == "a-r") ack(HStale, true);
+        else if (sym == "a+r") ack(HBeyond, true);
         else if (sym == "L") { if (connected) closed(); else { history += "(already down)"; } }
-        else if (sym == "E") reconnectScript(PolE, HExact, false);
-        else if (sym == "Ed") reconnectScript(PolE, HExact, true);
-        else if (sym == "R=") reconnectScript(PolR, HExact, false);
-        else if (sym == "R-") reconnectScript(PolR, HStale, false);
-        else if (sym == "R+") reconnectScript(PolR, HBeyond, false);
-        else if (sym == "R-d") reconnectScript(PolR, HStale, true);
-        else if (sym == "N") reconnectScript(PolN, HExact, false);
-        else if (sym == "F") reconnectScript(PolF, HExact, false);
+        else if (sym == "N") { Rc r; r.pol = PolN; reconnectScript(r); }
+        else if (sym == "N2") { Rc r; r.pol = PolN; r.sasl2 = true; reconnectScript(r); }
+        else if (sym == "F") { Rc r; r.pol = PolF; reconnectScript(r); }
+        else if (sym == "F2") { Rc r; r.pol = PolF; r.sasl2 = true; reconnectScript(r); }
+        else if (sym[0] == 'E' || sym[0] == 'R') {
+            // E[2][h=|h-][d]  new session (resume refused, optionally with the server's handled count)
+            // R[2](=|-|+)[r][d]  resumption accepted with h exact / one below / one beyond
+            Rc r;
+            size_t i = 1;
+            r.pol = sym[0] == 'E' ? PolE : PolR;
+            if (i < sym.size() && sym[i] == '2') { r.sasl2 = true; i++; }
+            if (r.pol == PolE && i < sym.size() && sym[i] == 'h') { r.failedH = sym[i + 1] == '=' ? HExact : HStale; i += 2; }
+            if (r.pol == PolR) { r.hm = sym[i] == '=' ? HExact : sym[i] == '-' ? HStale : HBeyond; i++; }
+            if (i < sym.size() && sym[i] == 'r') { r.reent = true; i++; }
+            if (i < sym.size() && sym[i] == 'd') { r.forceDown = true; i++; }
+            if (i != sym.size()) { fprintf(stderr, "harness: bad symbol %s\n", sym.c_str()); exit(3); }
+            reconnectScript(r);
+        }
         else if (sym == "C") resetCache();
         else { fprintf(stderr, "harness: unknown symbol %s\n", sym.c_str()); exit(3); }
     }
 };
+
+// The counters are `unsigned int`; the Lean model uses unbounded naturals, so nothing here goes to the model driver.
+// The real counters are moved next to 2^32 (private members reached through PrivAccess) and the property is judged
+// across the wrap: XEP-0198 counts modulo 2^32.
+static void wrapProbe()
+{
+    const unsigned int NEAR = 4294967294u;  // 2^32 - 2
+    // inbound: h of <a/> must continue modulo 2^32
+    {
+        Env e(true);
+        e.apply("E");
+        e.sam().*get(TagLastIn()) = NEAR;
+        e.recvOn = NEAR;
+        long before = oraclePass();
+        std::string seen;
+        for (int i = 0; i < 4; i++) {
+            e.recv(i % 2 ? 'p' : 'm');
+            TestClient::received(e.c, docs->r.documentElement());   // the generic h oracle (checkH) judges every <a/> written
+            seen += (e.ev.empty() ? std::string("?") : e.ev.back()) + " ";
+            e.ev.clear();
+        }
+        stat("wrap_inbound_probed");
+        sample("2^32 wrap, inbound counter of the real StreamAckManager set to 4294967294, then 4 x (stanza, <r/>): " + seen);
+        if (seen != "a4294967295 a0 a1 a2 " || oraclePass() - before < 4) oracleFail("C09:wrap:inbound-h-not-modulo-2^32", seen); else oraclePass()++;
+    }
+    // outbound: three stanzas numbered 4294967295, 0, 1 (mod 2^32); the server acknowledges h = 0, i.e. the first two
+    {
+        Env e(true);
+        e.apply("E");
+        e.sam().*get(TagLastOut()) = NEAR;
+        e.srvValid = false;  // the honest-server counter of the oracle is not modulo: switched off for this probe
+        std::vector<int> ids;
+        for (int i = 0; i < 3; i++) { ids.push_back((int)e.pk.size()); e.myLastOut = 0; e.send(true, false); }
+        e.ev.clear();
+        e.inAckOp = true; e.curH = 4294967295L;  // reports are judged below, not by the generic coverage rule
+        TestClient::received(e.c, docs->ack(0).documentElement());
+        e.inAckOp = false;
+        std::string acked;
+        for (auto &x : e.ev) acked += x + " ";
+        e.ev.clear();
+        stat("wrap_outbound_probed");
+        sample("2^32 wrap, outbound counter set to 4294967294, 3 stanzas sent (numbers 4294967295, 0, 1), <a h='0'/> received: reports " + (acked.empty() ? std::string("none") : acked));
+        std::string want = "P" + std::to_string(ids[0]) + "!ack P" + std::to_string(ids[1]) + "!ack ";
+        if (acked != want) oracleFail("C09:wrap:outbound-numbers-across-2^32", "sent 3 stanzas from counter 4294967294, <a h='0'/> must confirm the first two; reports: " + acked);
+        else oraclePass()++;
+        // resumption with h = 0: the third one must be resent, after nothing else
+        // connection lost, the server resumes with h = 0: only the third stanza may be written again
+        e.closed();
+        e.fs->up(); e.connected = true;
+        TestClient::handleStart(e.c);
+        e.lastReq = Env::None;
+        e.inject(docs->featSm);
+        e.ev.clear(); e.wirePkts.clear();
+        e.inAckOp = true; e.curH = 4294967295L;
+        e.inject(docs->resumed(0));
+        e.inAckOp = false;
+        std::vector<int> wantWire = acked == want ? std::vector<int> { ids[2] } : std::vector<int> {};
+        std::string wire;
+        for (int id : e.wirePkts) wire += "P" + std::to_string(id) + " ";
+        sample("... connection lost, <resumed h='0'/>: written again " + (wire.empty() ? std::string("none") : wire));
+        if (acked == want && e.wirePkts != wantWire) oracleFail("C09:wrap:outbound-numbers-across-2^32", "resend after the wrap: " + wire);
+        e.ev.clear();
+    }
+}
 
 static void runSeq(const std::vector<std::string> &syms, bool asSample = false)
 {
@@ -492,6 +766,11 @@ int main(int argc, char **argv)
     runSeq({ "E", "N", "m", "R=" }, true);                // witness of the defect fixed by repo commit 6d4ec74: <resume h/> counted a stanza received on a session without SM
     runSeq({ "E", "I", "Jr", "q" }, true);                // a response to a tracked request is a stanza of the session: <a h=1/>
     runSeq({ "E", "I", "I", "Je", "L", "R=", "Jr", "q" });
+    runSeq({ "E", "s", "s", "L", "R-r", "s", "a=" }, true);   // witness: a delivery report fired by <resumed/> sends a stanza -> written before the resent ones, not numbered
+    runSeq({ "E", "s", "s", "s", "L", "Eh-", "a=" }, true);   // witness: <failed h='2'/> ignored, the two handled stanzas are transmitted again
+    runSeq({ "E2", "s", "s", "L", "R2-", "s", "L", "E2h=", "a=" }, true);  // SASL2 inline <resume/>, Bind2 inline <enable/>
+    runSeq({ "E", "s", "s", "a+r", "a=", "L", "R2=r" });
+    runSeq({ "N2", "s", "E", "s", "L", "F2", "m", "L", "R=" });
     runSeq({ "E", "F", "p", "i", "q", "R-", "q" });
     runSeq({ "E", "s", "s", "s", "a-", "L", "s", "R-", "a=" }, true);
     runSeq({ "E", "s", "d", "s", "L", "E", "a-", "a=" });
@@ -502,11 +781,32 @@ int main(int argc, char **argv)
     const std::vector<std::string> core7 = { "s", "a-", "q", "m", "L", "R-", "E" };
     const std::vector<std::string> core11 = { "s", "I", "Jr", "a=", "a-", "q", "m", "x", "L", "R-", "E" };
     const std::vector<std::string> wide = { "s", "d", "n", "I", "Jr", "Je", "a=", "a-", "a+", "q", "m", "p", "i", "x", "L", "E", "R=", "R-", "R+", "N", "F", "C" };
+    if (a.mode == "probe") {
+        samplesLeft() = 100;
+        for (const char *q : { "E s s a=r q", "E s s L R-r s a=", "E s s L R=r s a=", "E s s s L Eh- a=", "E s s L Eh= s", "E2 s s L R2- a=", "E s L E2 s L R2=r", "E2 s s L E2h- a=",
+                               "N2 s E s L F2 m L R=", "E s s a+r a=", "E s I s L R-r" }) {
+            std::vector<std::string> syms;
+            std::string w;
+            for (const char *c = q;; c++) { if (*c == ' ' || !*c) { if (!w.empty()) syms.push_back(w); w.clear(); if (!*c) break; } else w += *c; }
+            runSeq(syms, true);
+        }
+        finish();
+        return 0;
+    }
     if (a.mode == "bench") {
         stat("exh_core9", enumerate(core9, 4));
         finish();
         return 0;
     }
+    // re-entrant delivery reports at both ack sites, <failed h/>; SASL2/Bind2 inline negotiation
+    const std::vector<std::string> coreRe = { "s", "a=r", "a+r", "a-", "q", "L", "R-r", "R=r", "E", "Eh-" };
+    const std::vector<std::string> coreS2 = { "s", "a-", "q", "m", "L", "E2", "R2-", "R2=r", "E2h-", "F2", "N2" };
+    std::vector<std::string> wide31 = wide;
+    for (auto x : { "a=r", "R-r", "Eh-", "Eh=", "E2", "R2-", "R2=", "N2", "F2" }) wide31.push_back(x);
+    stat("exh_coreRe10_depth5", enumerate(coreRe, 5));
+    stat("exh_wide31_depth3", enumerate(wide31, 3));
+    stat(thorough ? "exh_coreS2_11_depth5" : "exh_coreS2_11_depth4", enumerate(coreS2, thorough ? 5 : 4));
+    if (thorough) stat("exh_prefixEss_coreRe10_depth5", enumerate(coreRe, 5, { "E", "s", "s" }));
     if (thorough) {
         stat("exh_core7_depth7", enumerate(core7, 7));
         stat("exh_core9_depth6", enumerate(core9, 6));
@@ -516,12 +816,12 @@ int main(int argc, char **argv)
         stat("exh_prefixEsd_core9_depth6", enumerate(core9, 6, { "E", "s", "d" }));
     } else {
         stat("exh_core11_depth5", enumerate(core11, 5));
-        stat("exh_wide22_depth3", enumerate(wide, 3));
         stat("exh_prefixEsd_core9_depth5", enumerate(core9, 5, { "E", "s", "d" }));
     }
 
     // seeded random histories up to 60 symbols, including failed writes during every kind of operation
-    std::vector<std::string> rnd = wide;
+    std::vector<std::string> rnd = wide31;
+    for (auto x : { "a-r", "a+r", "R=r", "R2=r", "R2-r", "R2+", "E2h-", "E2h=", "E2d", "R2-d", "R-rd", "Ehd" }) if (std::string(x) != "Ehd") rnd.push_back(x);
     for (auto s : { "s", "s", "s", "a=", "a-", "m", "q", "nd", "qd", "Ed", "R-d", "R-", "E", "L", "I", "I", "Id", "Jr", "Jr", "Je" }) rnd.push_back(s);
     Rng rng(a.seed);
     int nrand = thorough ? 40000 : 4000;
@@ -532,6 +832,8 @@ int main(int argc, char **argv)
         runSeq(syms, i < 3 && len < 25);
     }
     stat("random_sequences", nrand);
+    samplesLeft() += 2;
+    wrapProbe();
     finish();
     return 0;
 }
